@@ -388,6 +388,7 @@ class Explorer:
         self._busy = 0
         self._pending_budget = False
         self._ticks_pending = 0
+        self._aborted = None
         self.levels = 0       # solver push levels == decisions of the current path asserted so far
         self.kept_levels = 0  # levels retained from the previous path (shared prefix)
         self.ops = 0          # solver.add operations outside decisions, in path order
@@ -463,6 +464,8 @@ class Explorer:
 
     # ---------------------------------------------------------------- variables
     def _declare(self, name, const, *constraints):
+        if self._aborted is not None:
+            raise self._aborted()
         if name in self.vars:
             raise ValueError("duplicate symbolic variable %s" % name)
         self.vars[name] = const
@@ -477,6 +480,8 @@ class Explorer:
         return c
 
     def _range(self, name, c, lo, hi):
+        if self._aborted is not None:
+            raise self._aborted()
         if name in self.vars:
             raise ValueError("duplicate symbolic variable %s" % name)
         self.vars[name] = c
@@ -521,6 +526,8 @@ class Explorer:
 
     def flag(self, name):
         """A boolean chosen by the solver and forked over at once."""
+        if self._aborted is not None:
+            raise self._aborted()
         c = self._const(name, z3.Bool)
         if name in self.vars:
             raise ValueError("duplicate symbolic variable %s" % name)
@@ -558,7 +565,7 @@ class Explorer:
                 self._model = None
             return taken
         if self.depth_limit is not None and len(self.trail) >= self.depth_limit:
-            raise Cut()
+            self._abort(Cut)
         m = self.model()
         side = z3.is_true(m.eval(cond, model_completion=True))
         other = z3.Not(cond) if side else cond
@@ -605,7 +612,7 @@ class Explorer:
         if r == "unknown":
             self.inconclusive.append("solver unknown on assume")
         if r != "sat":
-            raise Infeasible()
+            self._abort(Infeasible)
         self.trail.append([True, False, h, None])
         self.pos += 1
         self._level(c)
@@ -706,21 +713,32 @@ class Explorer:
                 raise PathBudget()
 
     def poll_budget(self):
+        if self._aborted is not None:
+            raise self._aborted()
         if self._pending_budget and not self._busy:
             self._pending_budget = False
-            raise PathBudget()
+            self._abort(PathBudget)
+
+    def _abort(self, exc_class):
+        """Abort the current path.  From now on every explorer call on this path raises the same abort again, so that
+        code which runs while the stack unwinds (finally: clauses calling back into a harness hook) cannot turn the
+        abort into an ordinary exception that the code under test would swallow."""
+        self._aborted = exc_class
+        raise exc_class()
 
     def _enter(self):
+        if self._aborted is not None:
+            raise self._aborted()
         if self._pending_budget and not self._busy:
             self._pending_budget = False
-            raise PathBudget()
+            self._abort(PathBudget)
         self._busy += 1
 
     def _leave(self):
         self._busy -= 1
-        if not self._busy and self._pending_budget:
+        if not self._busy and self._pending_budget and self._aborted is None:
             self._pending_budget = False
-            raise PathBudget()
+            self._abort(PathBudget)
 
     def run_path(self, fn):
         global _CUR
@@ -733,6 +751,7 @@ class Explorer:
         self._busy = 0
         self._pending_budget = False
         self._ticks_pending = 0
+        self._aborted = None
         self.stats["paths"] += 1
         use_alarm = self.path_seconds and hasattr(signal, "SIGPROF")
         if use_alarm:  # CPU-time budget of this process (robust against a loaded machine)
@@ -746,6 +765,8 @@ class Explorer:
                 if use_alarm:
                     signal.setitimer(signal.ITIMER_PROF, 0)
                     signal.signal(signal.SIGPROF, old)
+            if self._aborted is not None:
+                raise self._aborted()  # the abort was swallowed somewhere below: the path still counts as aborted
             self.stats["completed"] += 1
             if self._reached:
                 self.stats["reached"] += 1
